@@ -341,6 +341,15 @@ def _interval_to_vevent(item: Interval | RecurringPattern[Any]) -> Event:
         zone = rp.zone or timezone.utc
         if rp.anchor_timestamp is not None:
             dtstart = datetime.fromtimestamp(rp.anchor_timestamp, tz=zone)
+            # Show the pattern's own wall-clock time: an anchor given inside a DST
+            # gap reads an hour later than the time its occurrences start at
+            wall = dtstart.replace(
+                hour=rp.start_seconds // 3600,
+                minute=rp.start_seconds % 3600 // 60,
+                second=rp.start_seconds % 60,
+            )
+            if int(wall.timestamp()) == rp.anchor_timestamp:
+                dtstart = wall
         else:
             dtstart = _phase_base(rp.freq).replace(tzinfo=zone) + timedelta(
                 seconds=rp.start_seconds
